@@ -8,6 +8,7 @@ import (
 	"fmt"
 	"os"
 	"path/filepath"
+	"pgoverif/checker/norm"
 	"sort"
 	"strconv"
 	"strings"
@@ -26,6 +27,40 @@ type seedResult struct {
 	Detail string `json:"detail,omitempty"`
 }
 
+var rawProg *load.Program
+
+// runBest judges a rule on every view of the program (the tree as written and its normalisations, see checker/norm) and
+// keeps the verdict of the view with the fewest failing obligations: an "extract method" refactoring is the same code at
+// another address, and a real defect is a defect in every view.
+func runBest(views []*load.Program, r *core.Rule) *core.Ctx {
+	var best *core.Ctx
+	bestBad := -1
+	for _, v := range views {
+		ctx := core.RunRule(v, r)
+		bad := 0
+		for _, o := range ctx.Obs {
+			if o.Verdict == core.Violation || o.Verdict == core.Lost || o.Verdict == core.Undecided {
+				bad++
+			}
+		}
+		if len(ctx.Obs) < r.Floor {
+			bad++
+		}
+		if best == nil || bad < bestBad {
+			best, bestBad = ctx, bad
+		}
+		if bad == 0 {
+			break
+		}
+	}
+	return best
+}
+
+func viewsOf(p *load.Program) []*load.Program {
+	vs, _ := norm.Views(p)
+	return vs
+}
+
 var sweepLimit int
 
 func main() {
@@ -38,6 +73,7 @@ func main() {
 	listRules := flag.Bool("list", false, "list rules and exit")
 	verbose := flag.Bool("v", false, "print every obligation")
 	noSeeds := flag.Bool("noseeds", false, "skip self-test seeds")
+	genBaseline := flag.String("genbaseline", "", "write the list of function declarations of the tree to this file (the normaliser's baseline) and exit")
 	flag.IntVar(&sweepLimit, "sweep", -1, "mutation sweep: number of sampled mutants (default: 0 in quick, 400 in thorough)")
 	sweepAll := flag.String("sweepall", "", "development aid: comma-separated file globs; mutate every function in them and run all rules")
 	flag.Parse()
@@ -46,6 +82,18 @@ func main() {
 		os.Exit(runSweepAll(*root, *verif, *sweepAll, sweepLimit, true))
 	}
 
+	if *genBaseline != "" {
+		p, err := load.Load(*root)
+		if err != nil {
+			fmt.Fprintln(os.Stderr, err)
+			os.Exit(2)
+		}
+		if err := os.WriteFile(*genBaseline, []byte(strings.Join(norm.Keys(p), "\n")+"\n"), 0o644); err != nil {
+			fmt.Fprintln(os.Stderr, err)
+			os.Exit(2)
+		}
+		os.Exit(0)
+	}
 	if *listRules {
 		for _, r := range rules.All() {
 			fmt.Printf("%-18s %-14s floor=%-3d %s\n", r.ID, strings.Join(r.Props, ","), r.Floor, r.Doc)
@@ -99,6 +147,24 @@ func run(propID, tier, root, verif, patchFile, onlyRule string, verbose, noSeeds
 			return 2
 		}
 	}
+	// functions that the pinned tree did not have are inlined into their callers (checker/norm); every rule is judged on
+	// the tree as written and on the inlined views, and its best verdict counts
+	rawProg = prog
+	progViews, normRes := norm.Views(prog)
+	if normRes != nil && len(normRes.Helpers) > 0 {
+		fmt.Printf("normalised: %d new function(s) %v; %d call site(s) inlined in memory (%d views)\n", len(normRes.Helpers), normRes.Helpers, normRes.Inlined, len(progViews))
+		for _, l := range normRes.Left {
+			fmt.Println("  " + l)
+		}
+		if dir := filepath.Join(verif, "reports", "normalised"); normRes.Inlined > 0 {
+			_ = os.MkdirAll(dir, 0o755)
+			for f, b := range normRes.Files {
+				rel, _ := filepath.Rel(root, f)
+				_ = os.WriteFile(filepath.Join(dir, strings.ReplaceAll(rel, "/", "__")), b, 0o644)
+			}
+			fmt.Printf("  positions reported for those files may refer to the inlined text kept under %s\n", dir)
+		}
+	}
 
 	var selected []*core.Rule
 	for _, r := range rules.All() {
@@ -121,7 +187,7 @@ func run(propID, tier, root, verif, patchFile, onlyRule string, verbose, noSeeds
 	floors := map[string]int{}
 	var problems []string
 	for _, r := range selected {
-		ctx := core.RunRule(prog, r)
+		ctx := runBest(progViews, r)
 		perRule[r.ID] = len(ctx.Obs)
 		floors[r.ID] = r.Floor
 		for k, v := range ctx.Stats {
@@ -347,7 +413,7 @@ func runSeeds(prog *load.Program, propID, tier string, base []core.Obligation) [
 	sort.Slice(list, func(i, j int) bool { return list[i].Name < list[j].Name })
 	for _, s := range list {
 		res := seedResult{Name: s.Name, Rule: s.Rule}
-		src, err := prog.ReadFile(s.File)
+		src, err := rawProg.ReadFile(s.File)
 		if err != nil {
 			res.Status, res.Detail = "stale", err.Error()
 			out = append(out, res)
@@ -358,7 +424,7 @@ func runSeeds(prog *load.Program, propID, tier string, base []core.Obligation) [
 			out = append(out, res)
 			continue
 		}
-		mut, err := prog.Mutate(s.File, []byte(strings.Replace(string(src), s.Old, s.New, 1)), s.Name)
+		mut, err := rawProg.Mutate(s.File, []byte(strings.Replace(string(src), s.Old, s.New, 1)), s.Name)
 		if err != nil {
 			res.Status, res.Detail = "stale", err.Error()
 			out = append(out, res)
@@ -370,8 +436,11 @@ func runSeeds(prog *load.Program, propID, tier string, base []core.Obligation) [
 			out = append(out, res)
 			continue
 		}
-		ctx := core.RunRule(mut, r)
-		rules.Forget(mut)
+		mviews := viewsOf(mut)
+		ctx := runBest(mviews, r)
+		for _, mv := range mviews {
+			rules.Forget(mv)
+		}
 		res.Status = "missed"
 		for _, o := range ctx.Obs {
 			if (o.Verdict == core.Violation || o.Verdict == core.Lost || o.Verdict == core.Undecided) && !baseBad[o.Key()] && strings.Contains(o.Key(), s.Expect) {
@@ -405,23 +474,26 @@ func runSeeded(prog *load.Program, propID, root, verif string, selected []*core.
 			out = append(out, res)
 			continue
 		}
-		mut, err := prog.MutateMany(files, res.Name)
+		mut, err := rawProg.MutateMany(files, res.Name)
 		if err != nil {
 			res.Status, res.Detail = "stale", err.Error()
 			out = append(out, res)
 			continue
 		}
+		mviews := viewsOf(mut)
 		res.Status = "missed"
 		var hits []string
 		for _, r := range selected {
-			ctx := core.RunRule(mut, r)
+			ctx := runBest(mviews, r)
 			for _, o := range ctx.Obs {
 				if (o.Verdict == core.Violation || o.Verdict == core.Lost || o.Verdict == core.Undecided) && !baseBad[o.Key()] {
 					hits = append(hits, o.Key())
 				}
 			}
 		}
-		rules.Forget(mut)
+		for _, mv := range mviews {
+			rules.Forget(mv)
+		}
 		if len(hits) > 0 {
 			res.Status = "detected"
 			if len(hits) > 4 {
@@ -455,16 +527,17 @@ func runBenign(prog *load.Program, root, verif string, selected []*core.Rule, ba
 			out = append(out, res)
 			continue
 		}
-		mut, err := prog.MutateMany(files, res.Name)
+		mut, err := rawProg.MutateMany(files, res.Name)
 		if err != nil {
 			res.Status, res.Detail = "stale", err.Error()
 			out = append(out, res)
 			continue
 		}
+		mviews := viewsOf(mut)
 		res.Status = "silent"
 		var hits []string
 		for _, r := range selected {
-			ctx := core.RunRule(mut, r)
+			ctx := runBest(mviews, r)
 			n := 0
 			for _, o := range ctx.Obs {
 				if o.Verdict != core.Lost {
@@ -478,7 +551,9 @@ func runBenign(prog *load.Program, root, verif string, selected []*core.Rule, ba
 				hits = append(hits, r.ID+":below-floor")
 			}
 		}
-		rules.Forget(mut)
+		for _, mv := range mviews {
+			rules.Forget(mv)
+		}
 		if len(hits) > 0 {
 			res.Status = "false-alarm"
 			res.Detail = strings.Join(hits, " | ")
